@@ -168,6 +168,8 @@ def run_est(kind, df, meta, gen, stab, rx, fS=None, fA=None, fQ=None):
     smp = (df['S'] == 1).values
     res = {'ps': None, 'pa': None, 'q1': None, 'q0': None, 'nS': None, 'nA': None, 'spread': 0.0}
     otype = meta['outcome']
+    # the flag as computed from data ((df.S == 1).any(), an element of a boolean array) is a numpy.bool_, not the singleton True
+    gen = np.bool_(gen) if len(df) % 2 == 0 else bool(gen)
     try:
         with IptwSpy() as spy:
             if kind == 'IPSW':
